@@ -30,4 +30,4 @@ Deliver into the directory {out}/ (create it):
   - patch.diff   : `git diff` of your source change only (without the demonstration), applicable to /repo HEAD with `git apply`
   - demo/        : the demonstration file(s) and a README line saying where in the repo they go and the exact command to run them
   - meta.json    : {{"property": "{pid}", "summary": "...what the change does...", "needs": "...what is needed for it to manifest...", "commands_run": ["..."], "suite_passes_with_change": true/false, "demo_fails_with_change": true/false, "demo_passes_without_change": true/false}}
-Verify all three facts yourself (run the commands) before finishing, and state the results in meta.json honestly. Leave the worktree in place (the coordinator removes it). Your final message should summarise the change in 5-10 lines.""")
+Verify all three facts yourself (run the commands) before finishing, and state the results in meta.json honestly. Never use `git stash` (the stash is shared by all worktrees of /repo and other people work in theirs): to test on the unmodified tree use `git diff > /tmp/x.diff; git apply -R /tmp/x.diff; ...; git apply /tmp/x.diff`. Leave the worktree in place (the coordinator removes it). Your final message should summarise the change in 5-10 lines.""")
